@@ -20,6 +20,7 @@ PLAN = {
     # plain test of the lifted closure's postcondition on the real crate: run when that obligation fails (replay), was demoted to
     # undecided, or could not be extracted; a FAILING witness confirms a violation, a passing one changes nothing
     "witnesses": [
+        {"match": r"(Allowlist|fn register_|with_enhanced_key|label_filter)", "name": "label filters / register_*", "src": "witness_filters.rs", "crate": "metrics-tracing-context", "file": "metrics-tracing-context/src/lib.rs"},
         {"match": r"fn enhance_key", "src": "witness_enhanced.rs", "crate": "metrics-tracing-context", "file": "metrics-tracing-context/src/lib.rs"},
     ],
     "verus": [
